@@ -163,4 +163,8 @@ MUTANTS += [
  {"id": "ordered-by-loop-invariant-benign", "kind": "benign", "edits": [{"patch": "/verif/benign/h8-plist-3/patch.diff"}]},
  {"id": "ordered-by-loop-invariant-start-runs-ahead", "kind": "break", "edits": [{"patch": "/verif/benign/h8-plist-3/patch.diff"}, ("src/plist.rs", "                start = idx + 1;\n                tstart = start;", "                start = idx + 2;\n                tstart = idx + 1;")], "expect": ["PANIC"]},
  {"id": "ordered-by-loop-invariant-cursor-moves-back", "kind": "break", "edits": [{"patch": "/verif/benign/h8-plist-3/patch.diff"}, ("src/plist.rs", "                tstart += 1;", "                tstart = tstart.saturating_sub(1);")], "expect": ["PANIC"]},
+
+ # String::with_capacity(bytes.len() * 2) in a private helper whose every caller hands it a digest output
+ {"id": "capacity-in-hex-helper-benign", "kind": "benign", "edits": [{"patch": "/verif/benign/h9-digest-1/patch.diff"}]},
+ {"id": "capacity-in-hex-helper-overflows", "kind": "break", "edits": [{"patch": "/verif/benign/h9-digest-1/patch.diff"}, ("src/digest.rs", "String::with_capacity(bytes.len() * 2)", "String::with_capacity(usize::MAX - bytes.len())")], "expect": ["PANIC@digest::hex_encode#call:with_capacity"]},
 ]
